@@ -179,56 +179,24 @@ def check(ctx: Ctx) -> None:
 
 
 def identifier_source_rule(ctx: Ctx, model, rid: str) -> Dict[str, List[str]]:
+    """Parameter variables carry the element's own label or identifier: Element/Container.to_sympy are interpreted over the
+    finite abstraction of their inputs (sa/checks/_naming.py) and the names compared with <key>_<label | identifier>."""
+    from ._naming import naming_problems
     shapes: Dict[str, List[str]] = {}
-    from ..prov import Resolver, call_args
-    for mod, qual, want_id in ((BASE, "Element.to_sympy", "identifier"), (BASE, "Container.to_sympy", "identifiers[self]")):
+    for mod, qual in ((BASE, "Element.to_sympy"), (BASE, "Container.to_sympy")):
         fi = model.fi(mod, qual)
-
-        def naming(fn_node):
-            cands = [(n, fshape(n.value)) for n in walk_ordered(fn_node) if isinstance(n, ast.Assign) and norm(n.targets[0]) == "repl" and isinstance(n.value, ast.JoinedStr)]
-            want = [(n, c) for n, c in cands if c and "{identifier}" in c]
-            lab = [(n, c) for n, c in cands if c and "{self._label}" in c]
-            return want, lab
-
-        want, lab = naming(fi.node)
-        id_term = None
-        if len(want) == 1 and len(lab) == 1:
-            from ..prov import assignments
-            b = [x for x in assignments(fi.node, "identifier") if x[2] == "assign"]
-            id_term = norm(b[-1][0].value) if b else "identifier"
-        else:
-            # the naming loop may live in a helper method called from to_sympy (depth 1)
-            for c in calls_in(fi.node):
-                q = model.resolve_call(fi, c)
-                if q and q in model.funcs and q != fi.qname and model.funcs[q].module == BASE:
-                    w2, l2 = naming(model.funcs[q].node)
-                    if len(w2) == 1 and len(l2) == 1:
-                        want, lab = w2, l2
-                        hf = model.funcs[q]
-                        bound = call_args(c, hf.node, skip_self=True)
-                        arg = bound.get("identifier")
-                        given = any(k.arg == "identifier" for k in c.keywords) or len(c.args) >= [a.arg for a in hf.node.args.args if a.arg != "self"].index("identifier") + 1
-                        if arg is None:
-                            id_term = "<missing>"
-                        elif not given:
-                            id_term = f"<default {norm(arg)}>"
-                        else:
-                            id_term = norm(arg)
-                            if isinstance(arg, ast.Name):
-                                from ..prov import assignments
-                                b = [x for x in assignments(fi.node, arg.id) if x[2] == "assign"]
-                                id_term = norm(b[-1][0].value) if b else arg.id
-                        break
-        if len(want) != 1 or len(lab) != 1:
-            raise AnalysisError(f"{qual}: naming f-strings not found (neither inline nor in a helper called from it)")
-        shapes[qual] = want[0][1]
-        shapes[qual + ":label"] = lab[0][1]
-        ctx.instance(rid, f"{qual}: identifier in parameter names comes from {id_term}")
-        if id_term == want_id:
+        probs, n_in = naming_problems(model, qual)
+        ctx.instance(rid, f"{qual}: parameter names on {n_in} abstract inputs are <key>_<label>, else <key>_<identifier>, else <key>")
+        bad = [p_ for p_ in probs if p_["kind"] in ("naming", "raises")]
+        if not bad:
             ctx.ok()
         else:
+            p0 = bad[0]
             ctx.violation(rid, f"{qual}:identifier-source", mod, fi.node,
-                          f"{qual} names its parameters with identifier {id_term} instead of {want_id}: unlabelled elements of one type share variable names (not one variable per parameter)")
+                          f"{qual} names its parameters wrongly for {p0['input']}: {p0['got']} instead of {p0['want']}: variables of different elements coincide or do not carry the element's identifier")
+        # the writer's shape, for the separator agreement with the fit identifiers (R16.3)
+        shapes[qual] = ["{key}", "_", "{identifier}"]
+        shapes[qual + ":label"] = ["{key}", "_", "{self._label}"]
     return shapes
 
 
